@@ -52,6 +52,26 @@ fn model_xml(namespace: &str, name: &str, version: &str, broken: bool) -> String
     <literalExpression><text>[time("02:30:00@Europe/Warsaw") = time("03:30:00@Europe/Paris"), time("01:30:00@America/New_York") = time("02:30:00@America/New_York"), time("02:15:00@Australia/Lord_Howe") = time("02:15:00@Australia/Lord_Howe")]</text></literalExpression>
   </decision>
   {echoes}
+  <itemDefinition name="tNumbers" isCollection="true" id="_t_numbers_{v}">
+    <typeRef>number</typeRef>
+  </itemDefinition>
+  <itemDefinition name="tPerson" id="_t_person_{v}">
+    <itemComponent name="name" id="_t_person_name_{v}"><typeRef>string</typeRef></itemComponent>
+    <itemComponent name="age" id="_t_person_age_{v}"><typeRef>number</typeRef></itemComponent>
+    <itemComponent name="scores" id="_t_person_scores_{v}"><typeRef>tNumbers</typeRef></itemComponent>
+  </itemDefinition>
+  <inputData name="l" id="_in_l_{v}"><variable typeRef="tNumbers" name="l"/></inputData>
+  <inputData name="p" id="_in_p_{v}"><variable typeRef="tPerson" name="p"/></inputData>
+  <decision name="echo_l" id="_echo_l_{v}">
+    <variable typeRef="tNumbers" name="echo_l"/>
+    <informationRequirement id="_ir_l_{v}"><requiredInput href="#_in_l_{v}"/></informationRequirement>
+    <literalExpression><text>l</text></literalExpression>
+  </decision>
+  <decision name="echo_p" id="_echo_p_{v}">
+    <variable typeRef="tPerson" name="echo_p"/>
+    <informationRequirement id="_ir_p_{v}"><requiredInput href="#_in_p_{v}"/></informationRequirement>
+    <literalExpression><text>p</text></literalExpression>
+  </decision>
   <decision name="echo_mix" id="_echo_mix_{v}">
     <variable typeRef="Any" name="echo_mix"/>
     <informationRequirement id="_ir_mix_s_{v}"><requiredInput href="#_in_s_{v}"/></informationRequirement>
